@@ -291,8 +291,36 @@ def run(ctx):
             if i < 2:
                 ctx.sample({"text": case["text"]})
         f17_witness(ctx)
+        if ctx.shard == 0:
+            discard_field(ctx)
     finally:
         mon.uninstall()
+
+
+def discard_field(ctx):
+    """A field named `_` is a field like any other for ==, bool and hash (the name only allows repetition)."""
+    for compiled in (True, False):
+        text = "struct R { uint8 a; uint8 _; uint16 b; };\nstruct Q { struct { uint8 _; uint8 k; }; uint8 z; };"
+        ctx.evaluation(("discard-field", compiled))
+        ctx.cell("discard-field")
+        try:
+            cs = lib.load(text, "<", False, compiled)
+            x, y, z = cs.R(b"\x01\xff\x02\x00"), cs.R(b"\x01\x00\x02\x00"), cs.R(b"\x00\x05\x00\x00")
+            facts = {"differ-only-in-_:unequal": x != y and not (x == y), "only-_-nonzero:truthy": bool(z),
+                     "all-zero:falsy": not bool(cs.R(bytes(4))), "equal-values:equal": x == cs.R(b"\x01\xff\x02\x00"),
+                     "equal-values:same-hash": hash(x) == hash(cs.R(b"\x01\xff\x02\x00")),
+                     "keyword:_": cs.R(_=0x5A) != cs.R() and cs.R(_=0x5A).dumps() == b"\x00\x5a\x00\x00",
+                     "folded-_:unequal": cs.Q(b"\x07\x01\x02") != cs.Q(b"\x08\x01\x02")}
+        except Exception as e:  # noqa: BLE001
+            ctx.violation("discard-field", f"structure-with-a-field-named-_-raises:{type(e).__name__}",
+                          {"text": text, "compiled": compiled, "error": lib.exc_sig(e), "workload": "discard-field"})
+            continue
+        bad = sorted(k for k, v in facts.items() if not v)
+        if bad:
+            ctx.violation("discard-field", "field-named-_-ignored-by-eq-bool-or-hash",
+                          {"text": text, "compiled": compiled, "failed": bad, "workload": "discard-field"})
+        else:
+            ctx.event("discard_field_checked")
 
 
 def f17_witness(ctx):
@@ -326,6 +354,7 @@ def replay(ctx, detail):
     if "ast" not in detail:
         print("record:", detail)
         f17_witness(ctx)
+        discard_field(ctx)
         return
     case = engine.case_from_detail(detail)
     print("definition:\n" + case["text"])
